@@ -14,7 +14,7 @@ Planted programs (`planted=True`) contain one statement that is undefined on *ev
 """
 
 INT_MIN, INT_MAX = -2 ** 31, 2 ** 31 - 1
-PRELUDE = "#include <stdlib.h>\n#include <string.h>\n#include <ctype.h>\n#include <stdio.h>\nstatic void c04_init(int *p) { *p = 1; }\n"
+PRELUDE = "#include <stdlib.h>\n#include <string.h>\n#include <ctype.h>\n#include <stdio.h>\n#include <threads.h>\nstatic void c04_init(int *p) { *p = 1; }\n"
 
 
 class Fn:
